@@ -21,7 +21,7 @@
 (***************************************************************************)
 EXTENDS CssGen
 
-CONSTANTS NParts, Family, Export, NestDepth, Small, ValStride, CascStride, NestStride, SeqAllFams, SeqStride
+CONSTANTS NParts, Family, Export, NestDepth, Small, ValStride, CascStride, NestStride, SeqAllFams, SeqStride, SeqSize
 
 Wraps == << <<>>, <<PLayer(<<"a">>)>>, <<PLayer(<<"b">>)>>, <<PCond("media", [r |-> "media", qs |-> <<Q1("w100", 1)>>])>>,
             <<PLayer(<<"a">>), PCond("media", [r |-> "media", qs |-> <<Q1("w100", 3)>>])>>, <<PLayer(<<>>)>>,
@@ -77,9 +77,9 @@ ValsCheck(c) ==
     /\ LET p == IF GridVals[ValKeys[c[2]]].kind = "color" THEN "color" ELSE "margin-top" IN
        Winner(sh, [feats |-> SheetFeats(sh), conds |-> [a \in {} |-> TRUE]], 1, p) = Canon(ValKeys[c[2]]))
 
-\* ---- declaration sequences (CssSeq).  Small: longhands of the first and last side, shorthands with 1 and 4 values
+\* ---- declaration sequences (CssSeq).  SeqSize <= 2: longhands of the first and last side, shorthands with 1 and 4 values
 Code(k, c) == (k - 1) * 7 + c
-SeqSteps == {s \in 1..56 : StepK(s) \in (IF Small THEN {1, 4, 5, 8} ELSE {1, 2, 4, 5, 6, 8})}
+SeqSteps == {s \in 1..56 : StepK(s) \in (IF SeqSize <= 2 THEN {1, 4, 5, 8} ELSE {1, 2, 4, 5, 6, 8})}
 HashF(a, b, c) == ((a + b + c) % 4) + 1
 HashIp(a, b, c) == ((a + 2 * b + 3 * c) % 6) + 1
 SeqFamsOf(a, b, c) == IF SeqAllFams THEN 1..4 ELSE {HashF(a, b, c)}
@@ -88,7 +88,7 @@ Seq3 == UNION {{<<"dseq", f, HashIp(a, b, c), a, b, c, 0, 0>> : f \in SeqFamsOf(
                <<a, b, c>> \in {x \in SeqSteps \X SeqSteps \X SeqSteps : Strided(x[1], x[2], x[3])}}
 \* a plain shorthand first (all sides known), two steps, then one more plain step
 Seq4 == UNION {{<<"dseq", f, HashIp(a, b, c), s, a, b, c, 0>> : f \in SeqFamsOf(s, a, b + c)} :
-               s \in {Code(5, 1), Code(8, 1)}, <<a, b, c>> \in {x \in SeqSteps \X SeqSteps \X {Code(1, 1), Code(4, 1), Code(5, 1)} : Strided(x[1], x[2], x[3])}}
+               s \in {Code(5, 1), Code(8, 1)}, <<a, b, c>> \in SeqSteps \X SeqSteps \X {Code(1, 1), Code(4, 1), Code(5, 1)}}
 \* five longhands: side s twice in a row (classes c1, c2) at position p, the other sides plain, in order
 Others(s) == SetToSortSeq((1..4) \ {s}, <)
 L5Step(s, p, c1, c2, i) == IF i = p THEN Code(s, c1) ELSE IF i = p + 1 THEN Code(s, c2) ELSE Code(Others(s)[IF i < p THEN i ELSE i - 2], 1)
@@ -96,8 +96,8 @@ Seq5 == {<<"dseq", f, ip, L5Step(s, p, c1, c2, 1), L5Step(s, p, c1, c2, 2), L5St
            <<f, ip, s, p, c1, c2>> \in {x \in (1..4) \X (IF SeqAllFams THEN 1..6 ELSE {1, 3}) \X (1..4) \X (1..4) \X (1..7) \X (1..7) :
                                          SeqAllFams \/ x[1] = ((x[3] + x[4] + x[5] + x[6]) % 4) + 1}}
 SeqChoices == {c \in Seq3 \cup Seq4 \cup Seq5 : SeqValid(c)}
-NRW == IF Small THEN 5 ELSE Len(RWraps)
-RSeqChoices == {<<"rseq", a, b, c, sp, bp>> : a \in 1..NRW, b \in 1..NRW, c \in 1..NRW, sp \in 1..(IF Small THEN 2 ELSE Len(RSels)), bp \in 1..Len(RBodies)}
+NRW == CASE SeqSize = 1 -> 5 [] SeqSize = 2 -> 7 [] OTHER -> Len(RWraps)
+RSeqChoices == {<<"rseq", a, b, c, sp, bp>> : a \in 1..NRW, b \in 1..NRW, c \in 1..NRW, sp \in 1..(CASE SeqSize = 1 -> 1 [] SeqSize = 2 -> 2 [] OTHER -> Len(RSels)), bp \in 1..Len(RBodies)}
 \* a conditional wrapper identical to one that encloses it changes nothing: the path without it is live in the same environments
 RECURSIVE DedupFrom(_, _)
 DedupFrom(path, k) == IF k = 0 THEN <<>>
@@ -114,7 +114,7 @@ FamChoices(dummy) == CASE Family = "casc" -> CascChoices [] Family = "nest" -> N
                        [] Family = "seq" -> SeqChoices \cup RSeqChoices
                        [] Family = "dseq" -> SeqChoices
                        [] Family = "rseq" -> RSeqChoices
-                       [] Family = "all" -> CascChoices \cup NestChoices \cup ShortChoices \cup ValsChoices
+                       [] Family = "all" -> CascChoices \cup NestChoices \cup ShortChoices \cup ValsChoices \cup SeqChoices \cup RSeqChoices
 \* a cheap spreading function over the parts
 RECURSIVE SumFrom(_, _)
 SumFrom(c, k) == IF k > Len(c) THEN 0 ELSE c[k] * k + SumFrom(c, k + 1)
